@@ -240,3 +240,58 @@ Proof.
   split; [|split; vm_compute; reflexivity].
   intros tr H. vm_compute in H. inversion H; subst. vm_compute. reflexivity.
 Qed.
+
+(* on a fault-free machine route_has_dead_links is False for the tree of ner_net, so the statement above
+   is the whole story there *)
+Lemma has_dead_links_false : forall m t,
+    (forall p r c, In (p, r, c) (tree_hops t) -> exists l, r = Some l /\ link_alive m p l = true) ->
+    (forall e, ~ In e (tree_leaves t)) ->
+    has_dead_links m t = false.
+Proof.
+  intros m. induction t as [v|c0 kids IH] using rtree_ind2; intros Hh Hl; [reflexivity|].
+  cbn [has_dead_links]. rewrite Forall_forall in IH.
+  destruct (existsb _ kids) eqn:E; [|reflexivity]. exfalso.
+  apply existsb_exists in E. destruct E as [[rk sk] [Hk He]]. cbn [fst snd] in He.
+  destruct sk as [c1 ks1|v1].
+  - assert (Hin : In (c0, rk, c1) (tree_hops (RNode c0 kids))).
+    { apply in_hops_node. exists (rk, RNode c1 ks1). split; [exact Hk|]. unfold hops_kid. simpl. left. reflexivity. }
+    destruct (Hh _ _ _ Hin) as [l [Hr Hal]]. subst rk. rewrite Hal in He. cbn [negb orb] in He.
+    change (has_dead_links m (RNode c1 ks1)) with (has_dead_links m (snd (Some l, RNode c1 ks1))) in He.
+    rewrite (IH _ Hk) in He; [discriminate| |].
+    + intros p r c Hin'. apply (Hh p r c). apply in_hops_node. exists (Some l, RNode c1 ks1). split; [exact Hk|].
+      unfold hops_kid. simpl snd. right. exact Hin'.
+    + intros e Hin'. apply (Hl e). apply in_leaves_node. exists (Some l, RNode c1 ks1). split; [exact Hk|].
+      unfold leaves_kid. simpl snd. exact Hin'.
+  - apply (Hl (c0, rk, v1)). apply in_leaves_node. exists (rk, RLeaf v1). split; [exact Hk|].
+    unfold leaves_kid. simpl. left. reflexivity.
+Qed.
+
+Theorem route_valid_fault_free :
+  forall m source sinks dests pl cons allocs radius s order src,
+    1 <= rm_w m -> 1 <= rm_h m -> fault_free m (has_wrap m) ->
+    zassoc source pl = Some src -> in_range (rm_w m) (rm_h m) src ->
+    Forall (in_range (rm_w m) (rm_h m)) dests -> stream_ok s ->
+    (forall v, In v sinks -> exists c, zassoc v pl = Some c /\ In c dests) ->
+    (forall v a b, In v sinks -> zassoc v allocs = Some (a, b) -> 0 <= a /\ b <= 18) ->
+    exists t, route_net m source sinks dests pl cons allocs radius s order = Ok t /\
+              ValidTree m src (sink_reqs sinks pl cons allocs) t.
+Proof.
+  intros m source sinks dests pl cons allocs radius s order src Hw Hh Hff Hsrc Hsr Hd Hs Hsinks Hal.
+  apply (route_valid_no_repair m source sinks dests pl cons allocs radius s order src); auto.
+  intros [t route] E. cbn [fst].
+  destruct (ner_net_tree m (has_wrap m) src dests radius s Hw Hh Hff Hsr Hd Hs)
+    as [t' [route' [E' [_ [_ [Hhops _]]]]]].
+  rewrite E in E'. inversion E'; subst t' route'.
+  apply has_dead_links_false.
+  - intros p r c Hin. destruct (Hhops p r c Hin) as [l [Hr [Hwl _]]]. exists l. split; [exact Hr|].
+    apply rt_link_alive_iff. exact Hwl.
+  - (* the tree of ner_net has no leaves *)
+    apply sok_stream_ok in Hs.
+    destruct (has_wrap m).
+    + destruct (ner_net_tree_gen (adjacent (perfect (rm_w m) (rm_h m))) src dests (rm_w m) (rm_h m) true radius s sok
+                                 (geom_torus _ _ Hw Hh) Hsr Hd Hs) as [t2 [r2 [E2 [_ [_ [_ [_ [_ [_ Hnl]]]]]]]]].
+      rewrite E in E2. inversion E2; subst. exact Hnl.
+    + destruct (ner_net_tree_gen (mesh_adjacent (rm_w m) (rm_h m)) src dests (rm_w m) (rm_h m) false radius s sok
+                                 (geom_mesh _ _ Hw Hh) Hsr Hd Hs) as [t2 [r2 [E2 [_ [_ [_ [_ [_ [_ Hnl]]]]]]]]].
+      rewrite E in E2. inversion E2; subst. exact Hnl.
+Qed.
